@@ -329,6 +329,12 @@ func (p *Planner) tryOptimizeJoinDirection(node *invertibleTypeJoin, parentPlan 
 		// If the relation is one sided we cannot invert the join, so return early
 		return nil
 	}
+	if childTop, ok := node.childSide.plan.(*selectTopNode); ok && childTop.order != nil {
+		// An inverted join iterates over the child plan and re-initialises it to collect the
+		// children of every parent found. An order node in the child plan does not survive that:
+		// it would report the outer iteration as exhausted after the first parent.
+		return nil
+	}
 	optimized, err := p.tryOptimizeJoinDirectionByFilter(node, parentPlan)
 	if err != nil {
 		return err
